@@ -4,6 +4,7 @@ mod fs;
 mod gen;
 mod ic;
 mod run;
+mod state;
 mod wire;
 
 use std::io::{BufRead, BufWriter, Write};
